@@ -27,6 +27,12 @@ NPROC = int(os.environ.get("VF_NPROC", "16"))
 def _worker(args):
     mod_name, spec = args
     try:
+        import faulthandler
+        import signal
+        faulthandler.register(signal.SIGUSR1, all_threads=True)  # kill -USR1 <pid> dumps the stack of a stuck shard to stderr
+    except Exception:
+        pass
+    try:
         check = importlib.import_module(mod_name)
         env.setup()
         out = check.run_shard(spec)
